@@ -105,11 +105,11 @@ func (s seededReader) Read(p []byte) (int, error) {
 
 // zeroExtents blanks the given extents in a clone so that "everything else" can be compared.
 func hashOutside(d *simdisk.Disk, ext [][2]int64) [32]byte {
-	c := d.Clone()
-	for _, e := range ext {
-		c.Poke(e[0], make([]byte, e[1]))
+	var e []simdisk.Extent
+	for _, x := range ext {
+		e = append(e, simdisk.Extent{Off: x[0], Len: x[1]})
 	}
-	return c.Hash()
+	return d.HashExcept(e)
 }
 
 func execTableHistory(t *core.Trace, prop string) *core.Result {
